@@ -20,10 +20,9 @@ import (
 	"testing"
 
 	ledger "github.com/formancehq/ledger/internal"
-	"github.com/formancehq/ledger/internal/storage/ledgerstore"
 	"github.com/formancehq/ledger/verifharness/evid"
 	"github.com/formancehq/ledger/verifharness/gen"
-	"github.com/formancehq/stack/libs/go-libs/bun/bunpaginate"
+	"github.com/formancehq/ledger/verifharness/storeform"
 	"github.com/formancehq/stack/libs/go-libs/metadata"
 	"pgregory.net/rapid"
 )
@@ -117,52 +116,8 @@ func c13DrawEntry(t *rapid.T) c13Entry {
 	return c13Entry{Kind: kind, Log: l}
 }
 
-// jsonb re-encodes a JSON document the way PostgreSQL's jsonb does as far as a
-// Go decoder can tell: exact numbers, no whitespace, object keys re-ordered,
-// characters not escaped.
-func jsonb(in []byte) ([]byte, error) {
-	dec := json.NewDecoder(bytes.NewReader(in))
-	dec.UseNumber()
-	var v any
-	if err := dec.Decode(&v); err != nil {
-		return nil, err
-	}
-	var buf bytes.Buffer
-	enc := json.NewEncoder(&buf)
-	enc.SetEscapeHTML(false)
-	if err := enc.Encode(v); err != nil {
-		return nil, err
-	}
-	return bytes.TrimSpace(buf.Bytes()), nil
-}
-
 func c13StoreRoundTrip(cl *ledger.ChainedLog) (*ledger.ChainedLog, error) {
-	data, err := json.Marshal(cl.Data)
-	if err != nil {
-		return nil, fmt.Errorf("marshal data: %w", err)
-	}
-	data, err = jsonb(data)
-	if err != nil {
-		return nil, fmt.Errorf("jsonb: %w", err)
-	}
-	row := ledgerstore.Logs{
-		Ledger:         "l",
-		ID:             (*bunpaginate.BigInt)(new(big.Int).Set(cl.ID)),
-		Type:           cl.Type.String(),
-		Hash:           append([]byte(nil), cl.Hash...),
-		Data:           data,
-		IdempotencyKey: cl.IdempotencyKey,
-	}
-	// timestamptz: an instant with microsecond resolution, handed back by the
-	// driver as a time.Time and scanned by ledger.Time.Scan.
-	if err := row.Date.Scan(cl.Date.Time.Truncate(ledger.DatePrecision)); err != nil {
-		return nil, fmt.Errorf("scan date: %w", err)
-	}
-	var out *ledger.ChainedLog
-	if p := safely(func() { out = row.ToCore() }); p != nil {
-		return nil, fmt.Errorf("ToCore panicked: %v", p)
-	}
-	return out, nil
+	return storeform.RoundTrip(cl)
 }
 
 func c13APIRoundTrip(cl *ledger.ChainedLog) (*ledger.ChainedLog, []byte, []byte, error) {
